@@ -33,8 +33,14 @@ IPish == { <<49,57,50,46,49,54,56,46,49,48,48,46,50,48,48>>,        \* 192.168.1
            <<50,48,48,49,46,100,98,56,46,97,97,97>> }                \* 2001.db8.aaa : a name
 SampleLabels == {<<97, 98, 99>>, <<97, 45, 57>>, <<48, 122, 48, 49>>}     \* abc, a-9, 0z01
 SepBytes == (33..126) \ {47}                                                \* printable, without '/'
+\* label structure: one to four labels, well-formed, too short, empty, or with a hyphen at an end, joined by dots
+\* (empty labels are consecutive, leading or trailing dots)
+LabelPool == SampleLabels \cup {<<>>, <<97>>, <<97, 98>>, <<45, 97, 98>>, <<97, 98, 45>>}
+JoinDots(ls) == IF Len(ls) = 1 THEN ls[1] ELSE FoldLeft(LAMBDA acc, x : acc \o <<46>> \o x, ls[1], Tail(ls))
+Dotted == {JoinDots(ls) : ls \in UNION {[1..n -> LabelPool] : n \in 1..4}} \ {<<>>}
 ExtraNames ==
-     {Rep(97, n) : n \in 1..70}                                     \* a, aa, ... (63 is the longest valid)
+     Dotted
+\cup {Rep(97, n) : n \in 1..70}                                     \* a, aa, ... (63 is the longest valid)
 \cup {Rep(97, 3) \o <<46>> \o Rep(98, n) : n \in 55..62}           \* two labels around the length limit
 \cup {Rep(97, 30) \o <<46>> \o Rep(48, 3) \o <<46>> \o Rep(45, 1) \o Rep(122, 2)}
 \cup IPish
